@@ -26,7 +26,7 @@ Mutants (mutants/C11/*.diff), each run through the complete quick tier in a scra
                        greedy-first match is shorter than the string, i.e. exactly the class of the open known finding
                        C11-anchored-first-success, so the disagreements are filed under that finding (limit of the classification while
                        that defect is open; once it is fixed the mutant's cases become violations).
-  seeded/C11-a1        intersectRanges drops a shared end point (closure becomes possessive)  see mutants/C11/RESULTS.txt (family C)
+  seeded/C11-a1        intersectRanges drops a shared end point (closure becomes possessive)  DETECTED (T family C: /[\\--a]*[\\-]/ rejects "-")
 """
 import json
 import os
